@@ -135,6 +135,7 @@ type CallRec struct {
 	Name string
 	Args []Value
 	Rets []Value
+	Pre  *State // state in which the call was made ($at)
 }
 
 // HookCall records an invocation of the configured bridge hook.
